@@ -5,6 +5,7 @@
 (* HandlerStep is a silent step between logged lines.                      *)
 EXTENDS Topics, TraceCommon
 
+CONSTANT FreeRunning    \* TRUE only in the cfg for free-running publisher rounds (Enqueue becomes a silent step)
 VARIABLE l
 tvars == <<vars, l>>
 
@@ -40,7 +41,8 @@ TrReplace ==
 TrCollect ==
     /\ IsEv("Collect") /\ Quiescent
     /\ LET s1 == DoUpdate(Cur, Ln.topic, Ln.id, Ln.lvl, n + 1, "p1", 0)
-           s2 == DoEnqueue(s1, LastUpd(s1, Ln.topic))
+           e  == [LastUpd(s1, Ln.topic) EXCEPT !.tag = Get(Ln, "tag", "none")]
+           s2 == DoEnqueue(s1, e)
        IN Install(s2)
     /\ n' = n + 1
     /\ UNCHANGED <<reg, hcfg, seen, pc, pend, nreg>>
@@ -59,6 +61,7 @@ TrObs ==
     /\ IsEv("Obs") /\ Quiescent /\ AggQuiet
     /\ \A t \in TopicIds : ObsTopicOK(t, Ln.state[t])
     /\ \A h \in DOMAIN Ln.seen : SeenTuples(h) = Ln.seen[h]
+    /\ Get(Ln, "retired", 0) = 0          \* a handler that was removed / renamed away is never handed another event
     /\ UNCHANGED vars
 
 (* B3: two real publisher goroutines stepped through a gate placed between *)
@@ -66,9 +69,34 @@ TrObs ==
 TrUpd == IsEv("Upd") /\ Update(Ln.p, Ln.topic, Ln.id, Ln.lvl)
 TrEnq == IsEv("Enq") /\ Enqueue(Ln.p)
 
-TrSilent == (\E h \in Handlers : HandlerStep(h) \/ AggTick(h)) /\ UNCHANGED l
+(* CloseTopic followed by the restore that the next Collect performs (persisting service, all  *)
+(* stored states non-OK, spec handlers only): the topic is a new object with the same event     *)
+(* states and the handlers the service has on record; only its collected counter starts again.  *)
+TrCloseRestore ==
+    /\ IsEv("CloseRestore") /\ Quiescent
+    /\ collected' = [collected EXCEPT ![Ln.topic] = 0]
+    /\ UNCHANGED <<events, sorted, reg, hcfg, queue, seen, pc, pend, updLog, sent, n, nreg>>
 
-TrNext == TrReset \/ TrRegister \/ TrDeregister \/ TrReplace \/ TrCollect \/ TrObs \/ TrUpd \/ TrEnq \/ TrSilent
+(* free-running concurrent publishers (no gates): Start records that publisher p has called    *)
+(* Collect(topic,id,lvl); its Update and Enqueue happen as silent steps in an order TLC chooses. *)
+TrStart ==
+    /\ IsEv("Start") /\ pc[Ln.p] = "idle"
+    /\ pc' = [pc EXCEPT ![Ln.p] = "intent"]
+    /\ pend' = [pend EXCEPT ![Ln.p] = Event(Ln.topic, Ln.id, Ln.lvl, 0, 0, Ln.p)]
+    /\ UNCHANGED <<events, sorted, collected, reg, hcfg, queue, seen, updLog, sent, n, nreg>>
+UpdIntent(p) ==
+    /\ pc[p] = "intent"
+    /\ LET s == DoUpdate(Cur, pend[p].topic, pend[p].id, pend[p].lvl, n + 1, p, 0)
+       IN  /\ events' = s.ev /\ sorted' = s.so /\ collected' = s.co /\ updLog' = s.ul
+           /\ pend' = [pend EXCEPT ![p] = LastUpd(s, pend[p].topic)]
+    /\ pc' = [pc EXCEPT ![p] = "updated"] /\ n' = n + 1
+    /\ UNCHANGED <<reg, hcfg, queue, seen, sent, nreg>>
+
+TrSilent == /\ \/ \E h \in Handlers : HandlerStep(h) \/ AggTick(h)
+               \/ \E p \in Publishers : UpdIntent(p) \/ (pc[p] = "updated" /\ FreeRunning /\ Enqueue(p))
+            /\ UNCHANGED l
+
+TrNext == TrStart \/ TrCloseRestore \/ TrReset \/ TrRegister \/ TrDeregister \/ TrReplace \/ TrCollect \/ TrObs \/ TrUpd \/ TrEnq \/ TrSilent
 TrSpec == TrInit /\ [][TrNext]_tvars
 
 HW == HWMark(l)
